@@ -71,6 +71,12 @@ pub struct Case {
     pub body_err: Option<(u16, i32)>,
 }
 
+/// The decoder's codec may report any yield threshold (the setting belongs to the encoder; 0 is legal there).
+/// Derived from the case so that saved cases stay readable.
+fn decoder_yield(c: &Case) -> usize {
+    [0, 1024, 1, 32 * 1024][(c.buffer_size + c.frames.len()) % 4]
+}
+
 fn prost_payload() -> BoxedStrategy<Blob> {
     // valid protobuf encodings of Msg most of the time
     (small_bytes(20), "[a-z]{0,5}", proptest::collection::vec(any::<u32>(), 0..3), any::<u64>())
@@ -375,7 +381,7 @@ pub fn run(c: &Case, o: &mut Outcome) -> Result<(), Failure> {
     }
     crate::infra::alloc::arm();
     let evs: Vec<E> = if c.prost {
-        let d = ProstCodec::<Msg, Msg>::raw_decoder(BufferSettings::new(c.buffer_size, 1024));
+        let d = ProstCodec::<Msg, Msg>::raw_decoder(BufferSettings::new(c.buffer_size, decoder_yield(c)));
         let mut st = if c.response {
             Streaming::new_response(d, body, http::StatusCode::OK, dec_enc, None)
         } else {
@@ -391,7 +397,7 @@ pub fn run(c: &Case, o: &mut Outcome) -> Result<(), Failure> {
             })
             .collect()
     } else {
-        let d = RawCodec::with(c.buffer_size, 1024).decoder();
+        let d = RawCodec::with(c.buffer_size, decoder_yield(c)).decoder();
         let mut st = if c.response {
             Streaming::new_response(d, body, http::StatusCode::OK, dec_enc, None)
         } else {
@@ -516,7 +522,7 @@ impl Prop for C07 {
         run(c, o)
     }
     fn rule() -> &'static str {
-        "proptest: valid streams from the independent encoder (0-5 frames, identity or really compressed) mutated by well-formed zstd frame headers declaring absurd content sizes, flag->2..255/0/1, length +-delta / absolute (4 MiB+-1, 2^31, 2^32-1), truncation at any byte, byte corruption, inserted garbage, duplicated frames - or raw random bytes; any chunking (0,1,2-5,<=100,<=9000) and body Pending pattern; decoder in {raw, prost}; direction in {request, response}; trailers in {none, OK, error status, malformed grpc-status, no grpc-status}; body error injected before any chunk. After the first Err/None the stream is polled 6 more times. Oracle: no panic, poll budget respected, body not re-polled after its end, i-th message equals i-th frame of the independent reference parse, at most one Err ever and only None after it, None sticky, definite malformations (bad flag, flag 1 without encoding, over-limit length, undecodable protobuf, truncation with no trailers) must produce an error. Non-trivial: reference parse stops early (malformed) or a body error is injected; distinct = distinct serialised case."
+        "proptest: valid streams from the independent encoder (0-5 frames, identity or really compressed) mutated by well-formed zstd frame headers declaring absurd content sizes, flag->2..255/0/1, length +-delta / absolute (4 MiB+-1, 2^31, 2^32-1), truncation at any byte, byte corruption, inserted garbage, duplicated frames - or raw random bytes; any chunking (0,1,2-5,<=100,<=9000) and body Pending pattern; decoder in {raw, prost}; direction in {request, response}; trailers in {none, OK, error status, malformed grpc-status, no grpc-status}; body error injected before any chunk. After the first Err/None the stream is polled 6 more times. Oracle: no panic, poll budget respected, body not re-polled after its end, i-th message equals i-th frame of the independent reference parse, at most one Err ever and only None after it, None sticky, definite malformations (bad flag, flag 1 without encoding, over-limit length, undecodable protobuf, truncation with no trailers) must produce an error. Non-trivial: reference parse stops early (malformed) or a body error is injected; distinct = distinct serialised case. The decoder's codec reports yield thresholds 0, 1, 1024 and 32 KiB."
     }
     fn assumptions() -> Vec<String> {
         vec![
@@ -527,7 +533,7 @@ impl Prop for C07 {
     }
     fn cases(t: Tier) -> u64 {
         match t {
-            Tier::Quick => 60_000,
+            Tier::Quick => 200_000,
             Tier::Thorough => 2_000_000,
         }
     }
